@@ -2,6 +2,8 @@ import GT.Base.JsonQ
 import GT.Model.ND
 import GT.Model.Obj
 import GT.Model.Vectorised
+import GT.Model.Units
+import GT.Lemmas.Vectorised
 import GT.Base.QSqrt
 open Lean GT.J GT GT.Act
 namespace GT.Driver.C04
@@ -250,8 +252,34 @@ def opSegmentAux (j : Json) : R Json := do
     if (rowsOf r).any (fun x => -(x.headD 0 * x.headD 0) + ((x.drop 1).map (fun t => t * t)).sum != 0) then throw "irrational-root"
     return ofND r
 
+/-- iteration over a composite array (`for u in obj`, python's `__getitem__`/`__len__` protocol):
+the list of items `obj[0], obj[1], …` -/
+def opIterItems (j : Json) : R Json := do
+  let a ← ndf j "a"
+  if a.rank < 1 then throw "TypeError"
+  return .arr ((iterItems a).map ofND).toArray
+
+/-! ### the unit views of the theorem statements (`GT.Model.Units`) are reads through `ND.get`, the accessor every
+executed array primitive is written with; and the per-unit formula `normalizeRowF` of `normalize_units` /
+`distance_units` is what the executed `normalizeLit` holds at each unit -/
+
+theorem rowAt_eq_get {K : Type} [Inhabited K] (a : ND K) (n : ℕ) (i : List ℕ) (c : Fin n) :
+    rowAt a n i c = a.get (i ++ [c.1]) := rfl
+
+theorem stackAt_eq_get {K : Type} [Inhabited K] (a : ND K) (k p n : ℕ) (i : List ℕ) (v : Fin k) (r : Fin p)
+    (c : Fin n) : stackAt a k p n i v r c = a.get (i ++ [v.1, r.1, c.1]) := rfl
+
+theorem scalarAt_eq_get {K : Type} [Inhabited K] (a : ND K) (i : List ℕ) : scalarAt a i = a.get i := rfl
+
+theorem normalizeLit_rowAt {K : Type} [Field K] [Inhabited K] [DecidableEq K] (rabs : K → K) (v F : ND K)
+    {o : List ℕ} {n : ℕ} (hv : v.shape = o ++ [n]) (hF : F.shape = [n, n]) {i : List ℕ} (hi : Valid o i) :
+    (normalizeLit rabs v F).map (fun c => rowAt c n i)
+      = .ok (normalizeRowF rabs (matAt F n n []) (rowAt v n i)) := by
+  obtain ⟨c, hc, _, hg⟩ := normalizeLit_units rabs v F hv hF
+  rw [hc, ← hg i hi]; rfl
+
 def ops : List (String × Handler) :=
-  [("nd.T", opT), ("nd.expand_range", opExpand), ("nd.squeeze", opSqueeze), ("nd.swapaxes", opSwap),
+  [("c04.iter_items", opIterItems), ("nd.T", opT), ("nd.expand_range", opExpand), ("nd.squeeze", opSqueeze), ("nd.swapaxes", opSwap),
    ("nd.roll", opRoll), ("nd.sub", opSub), ("nd.select", opSelect), ("nd.slice", opSlice),
    ("nd.set_sub", opSetSub), ("nd.reshape", opReshape), ("nd.flatten_outer", opFlatten),
    ("nd.stack", opStack), ("nd.concat", opConcat), ("nd.zip", opZip), ("nd.matmul", opMatmul),
